@@ -388,6 +388,18 @@ def configs(tier):
     return out
 
 
+def drive_big_distances(PositionGrid):
+    """one grid with more than 2^31/46340 ... cells: 162 directions x 300 shells = 48600 cells, where products of two cell indices leave
+    the 32-bit range of the sparse index arrays. Only the distance getter is affordable at this size (and judged against the points)."""
+    REC.begin_case({"o": "ico_162", "t": "linspace(1, 30, 300)", "only": "distances"}, cls=["48600 cells, distances only"])
+    try:
+        pg = PositionGrid(o_grid_name="ico_162", t_grid_name="linspace(1, 30, 300)", position_grid_cartesian=True)
+        pg.get_distances_of_position_grid()
+        REC.nontrivial_case(("ico", 162, "linspace(1, 30, 300)", "distances only"))
+    except Exception as ex:
+        REC.crashed("C06.call_raised", ex)
+
+
 def random_configs(tier, seed):
     """seed-dependent part: other N (also the 100-200 range where cube3D grids have irregular eight-cornered faces), radial grids with
     three and more shells, and the truthy spellings of the flag a caller may hand over"""
@@ -406,12 +418,14 @@ def random_configs(tier, seed):
 
 def shards(tier, seed):
     nsh = 12 if tier == "quick" else 32
-    return [{"nshards": nsh, "shard": i, "seed": seed} for i in range(nsh)]
+    return [{"nshards": nsh, "shard": i, "seed": seed} for i in range(nsh)] + ([{"big_distances": True}] if tier == "thorough" else [])
 
 
 def run_shard(spec):
     geom3.install()
     PositionGrid = install()
+    if spec.get("big_distances"):
+        return drive_big_distances(PositionGrid)
     rng = random.Random(spec.get("seed", 0) * 100 + spec["shard"])
     nprng = np.random.default_rng(spec.get("seed", 0) * 100 + spec["shard"])
     drive_polygons(rng, nprng, 1500 if spec["tier"] == "quick" else 20000)
